@@ -36,6 +36,168 @@ func runMask(in maskIn) maskObs {
 	return o
 }
 
+// parse cases: arbitrary strings handed to ParseEventMask (groups, "all", spaces, case,
+// unknown names, several arguments), and the Set/Clear/IsSet algebra.
+type parseIn struct {
+	Kind   string   `json:"kind"`
+	Events []string `json:"events"`
+}
+
+type parseObs struct {
+	Mask uint32 `json:"mask"`
+	Err  bool   `json:"err"`
+}
+
+func runParse(in parseIn) parseObs {
+	m, err := api.ParseEventMask(in.Events...)
+	if err != nil {
+		return parseObs{Err: true}
+	}
+	return parseObs{Mask: uint32(int32(m))}
+}
+
+type bitsIn struct {
+	Kind  string `json:"kind"`
+	Mask  uint32 `json:"mask"`
+	Event int32  `json:"event"`
+}
+
+type bitsObs struct {
+	IsSet   bool   `json:"isSet"`
+	Set     uint32 `json:"set"`
+	Cleared uint32 `json:"cleared"`
+	Valid   uint32 `json:"valid"`
+	Panic   string `json:"panic"`
+}
+
+func runBits(in bitsIn) (o bitsObs) {
+	defer func() {
+		if r := recover(); r != nil {
+			o = bitsObs{Panic: firstLine(r)}
+		}
+	}()
+	m := api.EventMask(int32(in.Mask))
+	o = bitsObs{IsSet: m.IsSet(api.Event(in.Event)), Valid: uint32(int32(api.ValidEvents))}
+	s := m
+	s.Set(api.Event(in.Event))
+	c := m
+	c.Clear(api.Event(in.Event))
+	o.Set, o.Cleared = uint32(int32(s)), uint32(int32(c))
+	return o
+}
+
+// execute one case given its raw "in" object
+func execCase(raw json.RawMessage) (interface{}, interface{}, error) {
+	var k struct {
+		Kind string `json:"kind"`
+	}
+	if err := json.Unmarshal(raw, &k); err != nil {
+		return nil, nil, err
+	}
+	dec := func(v interface{}) error { return json.Unmarshal(raw, v) }
+	switch k.Kind {
+	case "mask":
+		var in maskIn
+		if err := dec(&in); err != nil {
+			return nil, nil, err
+		}
+		return in, runMask(in), nil
+	case "parse":
+		var in parseIn
+		if err := dec(&in); err != nil {
+			return nil, nil, err
+		}
+		return in, runParse(in), nil
+	case "bits":
+		var in bitsIn
+		if err := dec(&in); err != nil {
+			return nil, nil, err
+		}
+		return in, runBits(in), nil
+	case "res_oci":
+		var in resIn
+		if err := dec(&in); err != nil {
+			return nil, nil, err
+		}
+		return in, runResOci(in), nil
+	case "res_nri":
+		var in resIn
+		if err := dec(&in); err != nil {
+			return nil, nil, err
+		}
+		return in, runResNri(in), nil
+	case "mounts_oci":
+		var in mountsIn
+		if err := dec(&in); err != nil {
+			return nil, nil, err
+		}
+		return in, runMountsOci(in), nil
+	case "mounts_nri":
+		var in mountsIn
+		if err := dec(&in); err != nil {
+			return nil, nil, err
+		}
+		return in, runMountsNri(in), nil
+	case "devices_oci":
+		var in devsIn
+		if err := dec(&in); err != nil {
+			return nil, nil, err
+		}
+		return in, runDevsOci(in), nil
+	case "devices_nri":
+		var in devsIn
+		if err := dec(&in); err != nil {
+			return nil, nil, err
+		}
+		return in, runDevsNri(in), nil
+	case "hooks_oci":
+		var in hooksIn
+		if err := dec(&in); err != nil {
+			return nil, nil, err
+		}
+		return in, runHooksOci(in), nil
+	case "hooks_nri":
+		var in hooksIn
+		if err := dec(&in); err != nil {
+			return nil, nil, err
+		}
+		return in, runHooksNri(in), nil
+	case "env_oci":
+		var in envIn
+		if err := dec(&in); err != nil {
+			return nil, nil, err
+		}
+		return in, runEnvOci(in), nil
+	case "env_nri":
+		var in envIn
+		if err := dec(&in); err != nil {
+			return nil, nil, err
+		}
+		return in, runEnvNri(in), nil
+	case "helpers":
+		var in helpIn
+		if err := dec(&in); err != nil {
+			return nil, nil, err
+		}
+		return in, runHelpers(in), nil
+	case "ctor":
+		var in ctorIn
+		if err := dec(&in); err != nil {
+			return nil, nil, err
+		}
+		return in, runCtor(in), nil
+	case "alias":
+		var in aliasIn
+		if err := dec(&in); err != nil {
+			return nil, nil, err
+		}
+		return in, runAlias(in), nil
+	case "platform":
+		return map[string]interface{}{"kind": "platform"}, map[string]interface{}{"intSize": intSize()}, nil
+	}
+	return nil, nil, fmt.Errorf("unknown case kind %q", k.Kind)
+}
+
 func Run(o *hx.Opts, w *lineio.Writer) error {
 	if o.Replay != "" {
 		cases, err := hx.ReplayCases(o.Replay)
@@ -43,36 +205,51 @@ func Run(o *hx.Opts, w *lineio.Writer) error {
 			return err
 		}
 		for _, c := range cases {
-			var k struct {
-				Kind string `json:"kind"`
-			}
-			if err := json.Unmarshal(c.In, &k); err != nil {
+			in, obs, err := execCase(c.In)
+			if err != nil {
 				return err
 			}
-			switch k.Kind {
-			case "mask":
-				var in maskIn
-				if err := json.Unmarshal(c.In, &in); err != nil {
-					return err
-				}
-				w.Put(&lineio.Case{ID: c.ID, In: in, Obs: runMask(in)})
-			default:
-				return fmt.Errorf("unknown case kind %q", k.Kind)
-			}
+			w.Put(&lineio.Case{ID: c.ID, In: in, Obs: obs})
 		}
 		return nil
 	}
-	// all 8191 valid masks, exhaustively, plus the empty mask
+	// every generated case goes through its JSON form, exactly as a replay would
+	put := func(id string, in interface{}) error {
+		raw, err := json.Marshal(in)
+		if err != nil {
+			return err
+		}
+		in2, obs, err := execCase(raw)
+		if err != nil {
+			return err
+		}
+		return w.Put(&lineio.Case{ID: id, In: in2, Obs: obs})
+	}
+	put("platform", map[string]string{"kind": "platform"})
+
+	// ---- event masks: all 8191 valid masks, exhaustively, plus the empty mask
 	for m := uint32(0); m <= 0x1fff; m++ {
-		in := maskIn{"mask", m}
-		w.Put(&lineio.Case{ID: fmt.Sprintf("mask-%d", m), In: in, Obs: runMask(in)})
+		put(fmt.Sprintf("mask-%d", m), maskIn{"mask", m})
 	}
 	// masks with invalid bits (outside the property's domain; correspondence only)
 	r := o.Rand(14)
 	for i := 0; i < o.N(200, 5000); i++ {
-		m := r.Uint32() & 0x7fffffff
-		in := maskIn{"mask", m}
-		w.Put(&lineio.Case{ID: fmt.Sprintf("maskx-%d", i), In: in, Obs: runMask(in)})
+		put(id("maskx", i), maskIn{"mask", r.Uint32() & 0x7fffffff})
 	}
+	genParse(o, put)
+	// IsSet/Set/Clear: every event number 0..15 against boundary and random masks
+	for e := int32(0); e <= 15; e++ {
+		for _, m := range []uint32{0, 1, 0x1fff, 0x2000, 0x7fffffff, 0x1555, 0x0aaa} {
+			put(fmt.Sprintf("bits-%d-%d", e, m), bitsIn{"bits", m, e})
+		}
+		for i := 0; i < o.N(8, 200); i++ {
+			put(fmt.Sprintf("bitsr-%d-%d", e, i), bitsIn{"bits", r.Uint32() & 0x7fffffff, e})
+		}
+	}
+
+	genConversions(o, put)
+	genCtor(o, put)
+	genAlias(o, put)
+	genExcluded(o, put)
 	return nil
 }
